@@ -350,6 +350,10 @@ impl Prop for C17 {
         if bytes.len() > 32768 {
             x.count("probe.container_larger_than_flate2_buffer");
         }
+        // debugging aid: a copy of the bytes handed to the reader
+        if let Ok(p) = std::env::var("VERIF_KEEP_INPUT") {
+            let _ = std::fs::write(p, &bytes);
+        }
         let path = x.path(FILE);
         if case.entry == Entry::File {
             x.begin_op(99);
